@@ -431,7 +431,8 @@ CHECKS["C14"] = {
     "required_reach": ["types/structure.py:_generate_structure__init__", "types/structure.py:StructureMetaType.__call__",
                        "types/base.py:BaseArray.__default__", "types/base.py:MetaType.__default__",
                        "cstruct.py:cstruct.add_type", "types/packed.py:_struct"],
-    "required_cells": ["failed-length-evaluations", "alias-used-before-its-target-is-re-bound", "failed-dumps",
+    "required_cells": ["failed-length-evaluations", "alias-used-before-its-target-is-re-bound", "failed-dumps", "union-bit-fields-on-objects-of-different-byte-orders",
+                       "element-type-extended-after-a-null-terminated-parse",
                        "op:default", "op:keyword", "op:mutate", "op:parse", "op:failparse", "op:endian", "op:load",
                        "op:add_type", "two-cstructs-same-names", "load-histories", "load-histories:align",
                        "load-histories:compiled",
